@@ -1,5 +1,401 @@
 package main
 
-func thoroughImpl(prog *Program, p *Property, c *Ctx, seed int64, extra map[string]interface{}) {}
+import (
+	"bufio"
+	"bytes"
+	"encoding/json"
+	"fmt"
+	"math/rand"
+	"os"
+	"os/exec"
+	"path/filepath"
+	"sort"
+	"strings"
+	"sync"
+	"time"
+)
 
-func doSelftest(prop string, seed int64) int { return 0 }
+// Thorough tier (DESIGN §2.4): the quick rules, plus
+//  (a) the same rules on the GOARCH=386 build and (informational) on the build with test files,
+//  (b) the sensitivity suite: seeded breaking changes must be reported, benign refactorings must be silent,
+//  (c) cross-reference output of generic linters (recorded only).
+// Variants are only ANALYSED, each in a scratch copy outside /repo and /verif and in a separate
+// process; nothing of /repo is ever executed.
+
+type variant struct {
+	Name    string
+	Path    string
+	Kind    string   // breaking | benign
+	Expect  []string // rule ids expected (breaking), empty for benign
+	Props   []string // properties it is relevant for ("all" = every property)
+	Desc    string
+	Origin  string // "hand" or "sub-agent"
+	Applied bool
+}
+
+func parseVariantHeader(path string) (variant, error) {
+	v := variant{Path: path, Name: strings.TrimSuffix(filepath.Base(path), ".patch"), Origin: "hand"}
+	f, err := os.Open(path)
+	if err != nil {
+		return v, err
+	}
+	defer f.Close()
+	sc := bufio.NewScanner(f)
+	sc.Buffer(make([]byte, 1<<20), 1<<20)
+	for sc.Scan() {
+		line := sc.Text()
+		if !strings.HasPrefix(line, "# ") {
+			break
+		}
+		kv := strings.SplitN(strings.TrimPrefix(line, "# "), ": ", 2)
+		if len(kv) != 2 {
+			continue
+		}
+		switch kv[0] {
+		case "variant":
+			v.Name = kv[1]
+		case "kind":
+			v.Kind = kv[1]
+		case "expect":
+			if kv[1] != "none" {
+				v.Expect = strings.Split(kv[1], ",")
+			}
+		case "properties":
+			v.Props = strings.Split(kv[1], ",")
+		case "desc":
+			v.Desc = kv[1]
+		case "origin":
+			v.Origin = kv[1]
+		}
+	}
+	return v, nil
+}
+
+func loadVariants() []variant {
+	var out []variant
+	dir := verifDir()
+	files, _ := filepath.Glob(filepath.Join(dir, "variants", "*.patch"))
+	sort.Strings(files)
+	for _, f := range files {
+		if v, err := parseVariantHeader(f); err == nil && v.Kind != "" {
+			out = append(out, v)
+		}
+	}
+	// sub-agent seeds
+	metas, _ := filepath.Glob(filepath.Join(dir, "seeded", "*", "meta.json"))
+	sort.Strings(metas)
+	for _, m := range metas {
+		b, err := os.ReadFile(m)
+		if err != nil {
+			continue
+		}
+		var meta struct {
+			ID     string   `json:"id"`
+			Breaks string   `json:"breaks_property"`
+			Det    []string `json:"detected_by"`
+		}
+		if json.Unmarshal(b, &meta) != nil {
+			continue
+		}
+		v := variant{Name: "seeded-" + meta.ID, Path: filepath.Join(filepath.Dir(m), "patch.diff"), Kind: "breaking", Props: []string{meta.Breaks}, Origin: "sub-agent"}
+		// rules expected: those recorded for the broken property
+		for _, d := range meta.Det {
+			if strings.HasPrefix(d, meta.Breaks+".") {
+				v.Expect = append(v.Expect, d)
+			}
+		}
+		out = append(out, v)
+	}
+	return out
+}
+
+func (v variant) relevant(prop string) bool {
+	for _, p := range v.Props {
+		if p == prop || p == "all" {
+			return true
+		}
+	}
+	return false
+}
+
+type variantResult struct {
+	Variant  string   `json:"variant"`
+	Kind     string   `json:"kind"`
+	Origin   string   `json:"origin"`
+	Outcome  string   `json:"outcome"` // killed | missed | silent | alarmed | skipped
+	Reported []string `json:"reported_rules,omitempty"`
+	Expected []string `json:"expected_rules,omitempty"`
+	Detail   string   `json:"detail,omitempty"`
+}
+
+// analyseVariant applies v to a scratch copy of repo and runs this binary on it for one property.
+func analyseVariant(repo string, v variant, prop string) variantResult {
+	res := variantResult{Variant: v.Name, Kind: v.Kind, Origin: v.Origin, Expected: v.Expect}
+	tmp, err := os.MkdirTemp("", "restcheck-variant-")
+	if err != nil {
+		res.Outcome, res.Detail = "skipped", err.Error()
+		return res
+	}
+	defer os.RemoveAll(tmp)
+	if out, err := exec.Command("rsync", "-a", "--exclude", ".git", "--exclude", "examples", repo+"/", tmp+"/").CombinedOutput(); err != nil {
+		res.Outcome, res.Detail = "skipped", "copy failed: "+string(out)
+		return res
+	}
+	patch := exec.Command("patch", "-s", "-p1", "-i", v.Path)
+	patch.Dir = tmp
+	if out, err := patch.CombinedOutput(); err != nil {
+		res.Outcome, res.Detail = "skipped", "patch no longer applies to the current tree: "+firstLine(string(out))
+		return res
+	}
+	exe, _ := os.Executable()
+	cmd := exec.Command(exe, "-repo", tmp, "-property", prop, "-no-evidence", "-json")
+	cmd.Env = append(os.Environ(), "VERIF_DIR="+verifDir())
+	var stdout bytes.Buffer
+	cmd.Stdout = &stdout
+	cmd.Stderr = &stdout
+	runErr := cmd.Run()
+	var obls []Obligation
+	line := firstJSONLine(stdout.String())
+	if line == "" || json.Unmarshal([]byte(line), &obls) != nil {
+		if v.Kind == "breaking" && runErr != nil {
+			// the analyser refused the variant (e.g. it does not type-check): counted as skipped
+			res.Outcome, res.Detail = "skipped", "variant could not be analysed: "+firstLine(stdout.String())
+			return res
+		}
+		res.Outcome, res.Detail = "skipped", "no obligations produced: "+firstLine(stdout.String())
+		return res
+	}
+	known, _, _ := readKnownFindings()
+	isKnown := map[string]bool{}
+	for _, k := range known {
+		if k.Property == prop {
+			isKnown[k.Key] = true
+		}
+	}
+	rep := map[string]bool{}
+	for _, o := range obls {
+		if (o.Verdict == Violated || o.Verdict == Undecided) && !isKnown[o.Key()] {
+			rep[o.Rule] = true
+		}
+	}
+	res.Reported = sortedKeys(rep)
+	switch v.Kind {
+	case "breaking":
+		if len(rep) > 0 {
+			res.Outcome = "killed"
+		} else {
+			res.Outcome = "missed"
+		}
+	default:
+		if len(rep) == 0 {
+			res.Outcome = "silent"
+		} else {
+			res.Outcome = "alarmed"
+			for _, o := range obls {
+				if (o.Verdict == Violated || o.Verdict == Undecided) && !isKnown[o.Key()] {
+					res.Detail = o.Rule + " " + o.Func + ": " + o.Construct
+					break
+				}
+			}
+		}
+	}
+	return res
+}
+
+func firstLine(s string) string {
+	s = strings.TrimSpace(s)
+	if i := strings.IndexByte(s, '\n'); i >= 0 {
+		return s[:i]
+	}
+	return s
+}
+
+func firstJSONLine(s string) string {
+	for _, l := range strings.Split(s, "\n") {
+		if strings.HasPrefix(l, "[") || l == "null" {
+			return l
+		}
+	}
+	return ""
+}
+
+func runVariants(repo, prop string, seed int64) []variantResult {
+	vs := loadVariants()
+	var rel []variant
+	for _, v := range vs {
+		if v.relevant(prop) {
+			rel = append(rel, v)
+		}
+	}
+	rnd := rand.New(rand.NewSource(seed))
+	rnd.Shuffle(len(rel), func(i, j int) { rel[i], rel[j] = rel[j], rel[i] })
+	results := make([]variantResult, len(rel))
+	sem := make(chan struct{}, 12)
+	var wg sync.WaitGroup
+	for i, v := range rel {
+		wg.Add(1)
+		go func(i int, v variant) {
+			defer wg.Done()
+			sem <- struct{}{}
+			defer func() { <-sem }()
+			results[i] = analyseVariant(repo, v, prop)
+		}(i, v)
+	}
+	wg.Wait()
+	sort.Slice(results, func(i, j int) bool { return results[i].Variant < results[j].Variant })
+	return results
+}
+
+func thoroughImpl(prog *Program, p *Property, c *Ctx, seed int64, extra map[string]interface{}) {
+	start := time.Now()
+	// (a) other build configurations
+	cfg := map[string]interface{}{}
+	base := verdictMap(c)
+	for _, alt := range []struct {
+		name string
+		opt  loadOptions
+		arm  bool
+	}{{"GOARCH=386", loadOptions{GOARCH: "386"}, true}, {"with _test.go files", loadOptions{Tests: true}, false}} {
+		ap, err := load(prog.Repo, alt.opt)
+		if err != nil {
+			cfg[alt.name] = "load failed: " + err.Error()
+			if alt.arm {
+				c.cur = &p.Rules[0]
+				c.undecided("-", "build configuration "+alt.name, "-", "cannot load the repository under "+alt.name+": "+err.Error())
+			}
+			continue
+		}
+		ac, perr := runProperty(ap, p)
+		if perr != nil {
+			cfg[alt.name] = "analyser failure: " + perr.Error()
+			continue
+		}
+		am := verdictMap(ac)
+		var diffs []string
+		for k, v := range am {
+			if base[k] != v {
+				diffs = append(diffs, k+": "+string(base[k])+" -> "+string(v))
+			}
+		}
+		for k, v := range base {
+			if _, ok := am[k]; !ok {
+				diffs = append(diffs, k+": "+string(v)+" -> (absent)")
+			}
+		}
+		sort.Strings(diffs)
+		cfg[alt.name] = map[string]interface{}{"obligations": len(am), "verdict_differences": diffs, "functions": len(ap.SrcFunc)}
+		if alt.arm {
+			// a violation that exists only in that configuration is a violation of the repository
+			for _, o := range ac.Obls {
+				if (o.Verdict == Violated || o.Verdict == Undecided) && base[o.Key()] != o.Verdict {
+					o.Construct = "[" + alt.name + "] " + o.Construct
+					c.Obls = append(c.Obls, o)
+				}
+			}
+		}
+	}
+	extra["build_configurations"] = cfg
+
+	// (b) sensitivity suite
+	results := runVariants(prog.Repo, p.ID, seed)
+	counts := map[string]int{}
+	var fails []string
+	for _, r := range results {
+		counts[r.Outcome]++
+		if r.Outcome == "missed" || r.Outcome == "alarmed" {
+			fails = append(fails, r.Variant+": "+r.Outcome+" "+r.Detail)
+			fmt.Printf("SELFTEST-FAIL property=%s variant=%s outcome=%s %s\n", p.ID, r.Variant, r.Outcome, r.Detail)
+		}
+	}
+	extra["sensitivity_suite"] = map[string]interface{}{
+		"variants_killed":   counts["killed"],
+		"variants_missed":   counts["missed"],
+		"benign_silent":     counts["silent"],
+		"benign_alarmed":    counts["alarmed"],
+		"variants_skipped":  counts["skipped"],
+		"results":           results,
+		"note":              "a failed expectation is a defect of the checker, not of /repo: it is reported as SELFTEST-FAIL and never changes the exit status",
+		"expectation_fails": fails,
+	}
+
+	// (c) cross-reference lints (recorded only)
+	extra["lint_cross_reference"] = lintCrossReference(prog)
+	extra["thorough_wall_s"] = time.Since(start).Seconds()
+}
+
+func verdictMap(c *Ctx) map[string]Verdict {
+	m := map[string]Verdict{}
+	for _, o := range c.Obls {
+		if o.Verdict != Noted {
+			m[o.Key()] = o.Verdict
+		}
+	}
+	return m
+}
+
+func lintCrossReference(prog *Program) map[string]interface{} {
+	out := map[string]interface{}{}
+	run := func(name string, args ...string) {
+		if _, err := exec.LookPath(args[0]); err != nil {
+			out[name] = "tool not found"
+			return
+		}
+		cmd := exec.Command(args[0], args[1:]...)
+		cmd.Dir = prog.Repo
+		cmd.Env = append(os.Environ(), "GOFLAGS=-mod=mod", "GOPROXY=off", "GOSUMDB=off", "GOTOOLCHAIN=local", "GOWORK=off")
+		done := make(chan struct{})
+		var b []byte
+		go func() { b, _ = cmd.CombinedOutput(); close(done) }()
+		select {
+		case <-done:
+		case <-time.After(90 * time.Second):
+			if cmd.Process != nil {
+				cmd.Process.Kill()
+			}
+			out[name] = "timed out"
+			return
+		}
+		lines := strings.Split(strings.TrimSpace(string(b)), "\n")
+		var keep []string
+		for _, l := range lines {
+			if l != "" && !strings.HasPrefix(l, "#") && !strings.Contains(l, "_test.go") {
+				keep = append(keep, l)
+			}
+		}
+		if len(keep) > 25 {
+			keep = append(keep[:25], fmt.Sprintf("... %d more", len(keep)-25))
+		}
+		out[name] = map[string]interface{}{"findings": len(keep), "lines": keep}
+	}
+	run("go vet", "go", "vet", "./...")
+	run("staticcheck", "staticcheck", "./...")
+	run("errcheck", "errcheck", "./...")
+	out["note"] = "generic linters give no verdict on any property; recorded as a cross-reference only"
+	return out
+}
+
+// doSelftest runs the sensitivity suite for one property (or all) and exits non-zero on a failed expectation.
+func doSelftest(prop string, seed int64) int {
+	ids := []string{prop}
+	if prop == "" || prop == "all" {
+		ids = sortedIDs()
+	}
+	rc := 0
+	for _, id := range ids {
+		if _, ok := registry[id]; !ok {
+			fmt.Println("unknown property", id)
+			return 2
+		}
+		results := runVariants(defaultRepo(), id, seed)
+		counts := map[string]int{}
+		for _, r := range results {
+			counts[r.Outcome]++
+			if r.Outcome == "missed" || r.Outcome == "alarmed" {
+				fmt.Printf("SELFTEST-FAIL property=%s variant=%s outcome=%s reported=%v %s\n", id, r.Variant, r.Outcome, r.Reported, r.Detail)
+				rc = 1
+			}
+		}
+		fmt.Printf("%s selftest: killed=%d missed=%d benign-silent=%d benign-alarmed=%d skipped=%d\n", id, counts["killed"], counts["missed"], counts["silent"], counts["alarmed"], counts["skipped"])
+	}
+	return rc
+}
